@@ -195,6 +195,42 @@ def handle1 (toks : List String) : String :=
   | "kmeans3" :: rest => handleKMeans 3 rest
   | _ => "bad-op"
 
+/-- All characters are decimal digits (the harness's `num`). -/
+def digits? (s : String) : Option Nat :=
+  if s.isEmpty || !s.toList.all Char.isDigit then none else s.toNat?
+
+/-- `pwx <threads> <i|u> <none|hex cap> <path|grid|sparse|k9> <n> <k> <e> <seed>`: the K9 stream
+(ArcSwap on `i64` / `u64` weights whose part weights are 2^59 … 2^62 while the total fits the type;
+recipe expanded by the harness).  The implementation's merge formula `PW <- (sum_i tPW_i) -
+(thread_count - 1) * PW` is evaluated in the weight type and may overflow there (known finding K9);
+the model computes in exact integers and several tasks run freely, so it would predict `ok` where
+the implementation panics: it declines.  The conditions below are the harness's `bad-op`
+conditions (`run_pwx`). -/
+def handlePwx (tail : List String) : String :=
+  match tail with
+  | [th, wt, mi, shape, n, k, e, seed] =>
+    match (do
+      let th ← digits? th
+      let n ← digits? n
+      let k ← digits? k
+      let e ← digits? e
+      let seed ← digits? seed
+      let miOk ← (if mi == "none" then some true
+        else if mi.length > 16 then none
+        else (parseHex? mi).map (fun b => b ≤ 0x3ff0000000000000))
+      pure (th, n, k, e, seed, miOk)) with
+    | none => "bad-op"
+    | some (th, n, k, e, seed, miOk) =>
+      if !miOk || (wt != "i" && wt != "u") then "bad-op"
+      else if th < 1 || th > 16 || n < 100 || n > 20000 || k < 2 || k > 8 || e < 59 || e > 62 then "bad-op"
+      else if seed ≥ 2 ^ 64 then "bad-op"
+      else if shape == "k9" then
+        if n == 4096 && k == 2 && e == 60 then "skip part-weight-x-tasks-may-overflow (oracle only)" else "bad-op"
+      else if shape == "path" || shape == "grid" || shape == "sparse" then
+        "skip part-weight-x-tasks-may-overflow (oracle only)"
+      else "bad-op"
+  | _ => "bad-op"
+
 /-- Prefixes of the LARGE / REUSE / SPECIAL / CONTEXT streams.
 `large …`: a recipe op of the large / corner stream that the harness did NOT expand (the model
 would take too long at that size): oracle only.  `reuse <op>`: the implementation used one
@@ -203,6 +239,7 @@ result of `<op>` itself. -/
 def handle (toks : List String) : String :=
   match toks with
   | "large" :: _ => "skip large-n (oracle only)"
+  | "pwx" :: rest => handlePwx rest
   | "reuse" :: rest => handle1 rest
   -- special values / plumbing: `sp <m|o> <negzero> <scale> <preset> <plumb> <coord> <op>`; the model
   -- knows neither zero signs nor input types (and the abstract KMeans model no numbers at all): it
